@@ -63,7 +63,41 @@ func (c *FnVC) invoke(x *ssa.Call) {
 // unknownCall: no contract. Results unknown, heap unknown; in a nopanic function the
 // callee must be known not to panic.
 func (c *FnVC) unknownCall(x *ssa.Call, what string) {
-	if c.ct != nil && !c.ct.MayPanic && !c.ct.Abstract {
+	// `at call` assertions also apply to calls without contract (e.g. calls of function
+	// values): callee name "funcvalue" matches every call of a function value
+	if c.ct != nil && len(c.ct.At) > 0 {
+		cc := x.Common()
+		name := what
+		if cc.StaticCallee() == nil && !cc.IsInvoke() {
+			name = "funcvalue " + what
+		}
+		var args []string
+		var atys []types.Type
+		if cc.IsInvoke() {
+			args = append(args, c.v(cc.Value))
+			atys = append(atys, cc.Value.Type())
+		}
+		for _, a := range cc.Args {
+			args = append(args, c.v(a))
+			atys = append(atys, a.Type())
+		}
+		c.callN[name]++
+		c.atAsserts(x, name, fmt.Sprintf("%s#%d", shortCallee(name), c.callN[name]), args, atys)
+	}
+	assumed := false
+	if c.ct != nil {
+		desc := what
+		if cc := x.Common(); cc.StaticCallee() == nil && !cc.IsInvoke() {
+			desc = "funcvalue " + what
+		}
+		for _, a := range c.ct.AssumeNoPanic {
+			if a != "" && strings.Contains(desc, a) {
+				assumed = true
+				c.trustedUsed["assumed not to panic: "+desc+" (in "+c.fnName()+")"] = true
+			}
+		}
+	}
+	if c.ct != nil && !c.ct.MayPanic && !c.ct.Abstract && !assumed {
 		c.oblige("callpanic", "false", x.Block(), "call without contract may panic: "+what+" "+c.srcAt(x.Pos()), x.Pos())
 	}
 	c.havocAll("unmodelled call: " + what + " " + c.srcAt(x.Pos()))
@@ -139,28 +173,7 @@ func (c *FnVC) applyContract(x *ssa.Call, ct *Contract, f *ssa.Function, sig *ty
 		}
 	}
 	// at-call assertions of the caller's contract
-	if c.ct != nil {
-		for _, at := range c.ct.At {
-			if !strings.Contains(name, at.Callee) {
-				continue
-			}
-			if at.Nth != 0 && at.Nth != c.callN[name] {
-				continue
-			}
-			cenv := c.paramEnv()
-			for i := range args {
-				cenv[fmt.Sprintf("arg%d", i)] = envVal{args[i], atys[i]}
-			}
-			old := c.newEval(c.fn, c.paramEnv(), c.entry, nil)
-			ev := c.newEval(c.fn, cenv, copyHeap(c.cur), old)
-			t, err := ev.boolExpr(at.C.Expr)
-			if err != nil {
-				c.errorf("%s: at call %s: %v", c.fnName(), at.Callee, err)
-				continue
-			}
-			c.obligeNamed("at", fmt.Sprintf("at@%s", tag), t, c.reach[b], "assertion at call of "+name+": "+at.C.Text, nil)
-		}
-	}
+	c.atAsserts(x, name, tag, args, atys)
 	// effect
 	preHeap := copyHeap(c.cur)
 	allocPre := c.allocTerm()
